@@ -173,7 +173,7 @@ impl Check for C19 {
         vec!["the reference table (requests.rs::verdict, DESIGN.md appendix A) is a correct reading of MQTT 5.0".into(), "string content rules (wildcards in a response topic, U+0000) are invalid user input and not generated".into()]
     }
     fn workloads(&self) -> Vec<Workload> {
-        vec![Workload { name: "property-cells", quick: 27 * 8 * 7, thorough: 27 * 8 * 7 }, Workload { name: "qos-cap-cells", quick: 5 * 3 * 2 * 3, thorough: 5 * 3 * 2 * 3 }, Workload { name: "empty-lists", quick: 6, thorough: 6 }, Workload { name: "legal-sets", quick: 15, thorough: 15 }, Workload { name: "requests-after-random-histories", quick: 400, thorough: 600_000 }, Workload { name: "long-property-blocks", quick: 96, thorough: 96 }]
+        vec![Workload { name: "property-cells", quick: 27 * 8 * 7, thorough: 27 * 8 * 7 }, Workload { name: "qos-cap-cells", quick: 5 * 3 * 2 * 3, thorough: 5 * 3 * 2 * 3 }, Workload { name: "empty-lists", quick: 6, thorough: 6 }, Workload { name: "legal-sets", quick: 15, thorough: 15 }, Workload { name: "requests-after-random-histories", quick: 400, thorough: 600_000 }, Workload { name: "long-property-blocks", quick: 124, thorough: 124 }]
     }
     fn min_nontrivial(&self, _tier: Tier) -> usize {
         400
@@ -777,14 +777,19 @@ impl Check for C19 {
             }
             5 => {
                 // legal properties whose block is long: its length needs one, two or three bytes
-                // (127/128, 16383/16384); every request kind, a transmit arena with ample room
+                // (127/128, 16383/16384); every request kind, a transmit arena with ample room;
+                // a User Property whose name and value are each up to 65 535 bytes long
                 let ctx = [Ctx::Publish, Ctx::Subscribe, Ctx::Unsubscribe, Ctx::Disconnect][(index % 4) as usize];
                 let block = [100usize, 127, 128, 129, 1000, 16_382, 16_383, 16_384, 16_385, 16_390, 20_000, 40_000][((index / 4) % 12) as usize];
                 let two = (index / 48) % 2 == 1;
                 // ReasonString / UserProperty: identifier 1 byte + 2-byte length(s) + text
-                let props = if ctx == Ctx::Disconnect && !two { vec![Prop::ReasonString("r".repeat(block - 3))] } else if two { vec![Prop::UserProperty("k".into(), "v".repeat(block / 2 - 6)), Prop::UserProperty("kk".into(), "w".repeat(block - block / 2 - 6))] } else { vec![Prop::UserProperty("key".into(), "v".repeat(block - 8))] };
-                let cfg = CaseCfg { rx: 256, tx: 100_000, keepalive: 0, ..CaseCfg::default() };
-                let label = format!("long-block/{:?}/{}/{}", ctx, block, if two { "two" } else { "one" });
+                // ... and a single User Property whose name and value are both long: each of the two
+                // strings may be 65 535 bytes, together they exceed what one length prefix counts
+                let pair = if index >= 96 { Some([(32_766usize, 32_767usize), (32_767, 32_767), (32_768, 32_768), (40_000, 40_000), (65_535, 100), (100, 65_535), (65_535, 65_535)][((index - 96) / 4) as usize]) } else { None };
+                let block = if let Some((a, b)) = pair { 5 + a + b } else { block };
+                let props = if let Some((a, b)) = pair { vec![Prop::UserProperty("n".repeat(a), "v".repeat(b))] } else if ctx == Ctx::Disconnect && !two { vec![Prop::ReasonString("r".repeat(block - 3))] } else if two { vec![Prop::UserProperty("k".into(), "v".repeat(block / 2 - 6)), Prop::UserProperty("kk".into(), "w".repeat(block - block / 2 - 6))] } else { vec![Prop::UserProperty("key".into(), "v".repeat(block - 8))] };
+                let cfg = CaseCfg { rx: 256, tx: if pair.is_some() { 300_000 } else { 100_000 }, keepalive: 0, ..CaseCfg::default() };
+                let label = format!("long-block/{:?}/{}/{}", ctx, block, if pair.is_some() { "long-name-and-value" } else if two { "two" } else { "one" });
                 out.key(format!("long-block/{:?}/{}", ctx, block));
                 let mut steps = vec![connect_with(SpMode::Force(false), AckMode::Immediate, vec![])];
                 let req_at = steps.len();
